@@ -23,7 +23,7 @@ namespace
             return true;
         if (!std::isfinite(a) || !std::isfinite(b))
             return false;
-        std::int64_t d = ord(a) - ord(b);
+        std::int64_t d = ord_diff(a, b);
         if (d < 0)
             d = -d;
         return d <= ulps;
